@@ -13,7 +13,7 @@ def leg(test, module="rt", quick=(1000, 1), thorough=(10000, 16), race=False, ti
                 timeout_s=timeout_s, env=env or {}, fixed=fixed)
 
 HOOK_COMMITS = ["dd392ad"]
-FIX_COMMITS = ["e449346", "ba22cb7", "3039ef0", "273eefb", "cca5970", "2577b44"]
+FIX_COMMITS = ["e449346", "ba22cb7", "3039ef0", "273eefb", "cca5970", "2577b44", "d6810d1"]
 
 ALL_PROPS = ["C%02d" % i for i in range(1, 21)]
 
@@ -131,6 +131,21 @@ CHECKS = {
         level_note="Trusted: the Go race detector (sees races only in executed schedules); foreign FContext implementations are assumed to return copies from their getters like FContextImpl does.",
         assumptions=["ephemeral property values are compared at map level (no deep copy of values is claimed)"],
         design_ref="DESIGN.md §2 C17",
+    ),
+    "C12": dict(
+        title="Size limits are enforced exactly and reported, never silently",
+        legs=[leg("TestC12Limits", quick=(300, 4), thorough=(5000, 16), timeout_s=3000, prefixes=["c12."])],
+        level="exploration",
+        technique="property-based testing (rapid): generated payload shapes sized to limit+delta, size oracle computed by an independent unbounded encoding, over the bounded buffer, spy transports and real NATS/HTTP/STOMP paths",
+        rule=("Payload shapes (string/binary/i32/i64/bool/list/map/nested struct fields, the large part first, middle or last) sized so that the framed size is limit+delta, "
+              "delta in {-100,-2,-1,0,+1..+5,+100}; limits {0 (unbounded), 200, 1000, 65536, 1 MiB}; binary/compact/JSON; legs: TMemoryOutputBuffer, FStandardClient Call/Oneway/Publish over spies, "
+              "NATS request and response (1 MiB), HTTP request limit and client-requested response limit, STOMP max publish size; then a small follow-up message. "
+              "Non-trivial: |delta|<=2, or the large part is a string, or it is last. Distinct: sha256 of the case."),
+        level_text=("Exploration: size > limit => REQUEST_TOO_LARGE and nothing transmitted (spy / handler / subscriber saw no bytes); oversize response => caller gets RESPONSE_TOO_LARGE, not a timeout; "
+                    "size <= limit => accepted with transmitted length == independently computed framed size; the follow-up message succeeds."),
+        level_note="Trusted: the independent size computation (reference header codec + Thrift protocol encoders on an unbounded buffer). The HTTP response limit is compared by the server without the 4-byte frame prefix; that 4-byte band is left undecided.",
+        assumptions=["NATS broker with the default 1 MiB max payload"],
+        design_ref="DESIGN.md §2 C12",
     ),
 }
 
